@@ -22,6 +22,8 @@ FAMILIES = {
     "values": dict(seed=116, n=1500, gen="ValuesGen", opts={"tables": 1, "boolops": False, "like": False, "subq": False}),
     "gsets": dict(seed=117, n=2000, gen="GroupingSetsGen", opts={"null_p": 0.3, "boolops": False, "like": False, "subq": False, "dom": 2}),
     "window": dict(seed=118, n=3000, gen="WindowGen", opts={"null_p": 0.25, "boolops": False, "like": False, "subq": False, "dom": 3}),
+    "topk": dict(seed=119, n=2500, opts={**OFF, "joins": False, "boolops": False, "order_p": 1.0, "max_rows": 9, "tables": 1, "null_p": 0.2, "dom": 2,
+                                         "types": ["int", "int", "dbl", "str", "date"], "limit_p": 0.9, "offset_p": 0.35, "min_order_keys": 2, "const_atoms": False, "where_p": 0.25, "distinct_order_keys": True, "cols": 3}),
     "cte": dict(seed=108, n=2000, opts={**OFF, "cte": True, "derived": True, "cte_p": 1.0, "boolops": False, "group": True}),
 }
 
